@@ -53,6 +53,13 @@ def call_names(call):
     elif op == "yield":
         exprs.variables(call["e"], out)
         exprs.variables(call["time"], out)
+    elif op == "implicit":
+        out.update(call["lhs"])
+        out.update(call["solve"])
+        for a in call["exprs"]:
+            exprs.variables(a, out)
+        for _k, a in call["params"]:
+            exprs.variables(a, out)
     elif op == "if":
         exprs.variables(call["c"], out)
     return out
@@ -85,6 +92,9 @@ def replay_calls(name, calls):
             e = exprs.from_json(["call", ["v", call["f"]], call["args"], call["kw"]])
             lhss = tuple(p.Variable(a) for a in call["lhs"])
             cb.assign(lhss, e)
+        elif op == "implicit":
+            cb.assign_implicit(tuple(call["lhs"]), tuple(call["solve"]), tuple(exprs.from_json(e) for e in call["exprs"]),
+                               {k: exprs.from_json(v) for k, v in call["params"]}, "solver")
         elif op == "yield":
             cb.yield_state(exprs.from_json(call["e"]), call["comp"], exprs.from_json(call["time"]),
                            call["tid"])
@@ -267,6 +277,9 @@ def show_call(c):
     if op == "acall":
         a = [exprs.show(x) for x in c["args"]] + ["%s=%s" % (k, exprs.show(v)) for k, v in c["kw"]]
         return "%s <- %s(%s)" % (", ".join(c["lhs"]), c["f"], ", ".join(a))
+    if op == "implicit":
+        return "%s <- solve %s: %s = 0 (%s)" % (", ".join(c["lhs"]), ", ".join(c["solve"]), "; ".join(exprs.show(e) for e in c["exprs"]),
+                                                ", ".join("%s=%s" % (k, exprs.show(v)) for k, v in c["params"]))
     if op == "yield":
         return "yield %s as %s at %s (%s)" % (exprs.show(c["e"]), c["comp"], exprs.show(c["time"]), c["tid"])
     if op == "if":
@@ -287,7 +300,7 @@ def show_prog(calls):
 def stmt_trees(stmt):
     """Expression trees of a real statement, for the specifications that evaluate statements
     (Access, Stepper, Rewrite)."""
-    from dagrt.language import (Assign, AssignFunctionCall, FailStep, Raise, SwitchPhase,
+    from dagrt.language import (Assign, AssignFunctionCall, AssignImplicit, FailStep, Raise, SwitchPhase,
                                 YieldState)
     rec = {"kind": stmt_kind(stmt), "guard": exprs.to_json(getattr(stmt, "condition", True)),
            "lhs": [], "sub": [], "rhs": ["none"], "loops": [], "args": [], "kw": [], "time": ["none"],
@@ -305,6 +318,12 @@ def stmt_trees(stmt):
         rec["f"] = stmt.function_id
         rec["args"] = [exprs.to_json(a) for a in stmt.parameters]
         rec["kw"] = [[k, exprs.to_json(v)] for k, v in sorted(dict(stmt.kw_parameters).items())]
+    elif isinstance(stmt, AssignImplicit):
+        # the equations as positional "arguments", the other parameters as keywords, the unknowns in "sub"
+        rec["lhs"] = list(stmt.assignees)
+        rec["args"] = [exprs.to_json(e) for e in stmt.expressions]
+        rec["kw"] = [[k, exprs.to_json(v)] for k, v in sorted(dict(stmt.other_params).items())]
+        rec["sub"] = [["v", n] for n in stmt.solve_variables]
     elif isinstance(stmt, YieldState):
         rec["rhs"] = exprs.to_json(stmt.expression)
         rec["time"] = exprs.to_json(stmt.time)
